@@ -65,5 +65,14 @@ def control_order(inp):
     return {'violates': bool(bad), 'detail': bad[:4]}
 
 
+def dynamics_with_controls(inp):
+    """compute_dynamics with pre- and post-measurement controls against the exact joint evolution (record_all True and False)"""
+    from replay.c03 import exact_ancilla
+    r = exact_ancilla(inp)
+    r['detail'] = [d for d in r.get('detail', []) if 'transform' not in str(d.get('case'))]
+    r['violates'] = bool(r['detail'])
+    return r
+
+
 # thorough tier (bounded native sweeps): (function, inputs, obligation of the open finding it reproduces or None)
-THOROUGH = [('chain_order', {}, None), ('control_order', {}, None)]
+THOROUGH = [('chain_order', {}, None), ('control_order', {}, None), ('dynamics_with_controls', {}, None)]
